@@ -78,6 +78,8 @@ def _job(sub, name):
             else:
                 sub.passed(oid + ".orientation_average_on_compiled_model", function=where, kind="bounded",
                            backend="numeric replay", bound=rinfo.get("summary"))
+    elif name in RESTRICTED and _restricted_job(sub, name, where, oid, info):
+        pass
     elif "paracrystal" in name:
         # sharp Bragg peaks: no affordable independent reference converges (DESIGN.md App. A);
         # without the Sigma identity nothing can be decided: listed, not checked
@@ -87,7 +89,7 @@ def _job(sub, name):
                    bound="not under contract (%s); no reliable numeric reference for sharp Bragg peaks: "
                          "NOT CHECKED" % info.get("reason"))
     else:
-        rep, rinfo = replay_orientation_average(name)
+        rep, rinfo = replay_orientation_average(name, hunt=True)
         if rep:
             sub.fail(oid, {"structure": info, "replay": rinfo}, function=where, engine="cvc")
         else:
@@ -97,7 +99,45 @@ def _job(sub, name):
             sub.extra.setdefault("not_under_contract", []).append({"model": name, "reason": info.get("reason")})
 
 
-def _weights_obligations(sub, name, where, wsum):
+# Models with a recorded finding on the full claim: the sub-family of parameter sets on which the finding does not
+# apply is claimed separately, so that any other deviation of the same model is still reported.
+RESTRICTED = {
+    "core_shell_bicelle_elliptical": ("circular_cross_section", {"x_core": 1}),
+    "core_shell_bicelle_elliptical_belt_rough": ("circular_cross_section", {"x_core": 1}),
+}
+
+
+def _restricted_job(sub, name, where, oid, info_full):
+    """The full identity did not close (recorded finding): report it against the compiled model as before, and decide
+    the restricted claim.  Returns True when everything was reported here."""
+    label, fixed = RESTRICTED[name]
+    rep, rinfo = replay_orientation_average(name, hunt=True)
+    if rep:
+        sub.fail(oid, {"structure": info_full, "replay": rinfo}, function=where, engine="cvc")
+    else:
+        sub.passed(oid + ".numeric_stand_in", function=where, kind="bounded", engine="cvc", backend="numeric replay",
+                   bound="not under contract (%s); %s" % (info_full.get("reason"), rinfo.get("summary")))
+    roid = "%s.%s" % (oid, label)
+    try:
+        ok, info = _prove(sub, name, restrict=fixed)
+    except (OutsideSubset, polynf.NotPolynomial) as exc:
+        ok, info = False, {"reason": str(exc)}
+    if ok:
+        sub.passed(roid, function=where, engine="cvc", backend="polynomial normal form",
+                   sample={"obligation": roid, "restricted_to": fixed, "discovered_direction": info.get("direction")})
+        _weights_obligations(sub, name + "." + label, where, info.get("weight_sum"), replay_fixed=(name, fixed))
+        return True
+    rep2, rinfo2 = replay_orientation_average(name, fixed=fixed, hunt=True)
+    if rep2:
+        sub.fail(roid, {"restricted_to": fixed, "structure": info, "replay": rinfo2}, function=where, engine="cvc")
+    else:
+        sub.undecided(roid, "identity for %s did not close (%s) and the compiled model agrees with the orientation "
+                            "average on the sampled sets (%s)" % (fixed, info.get("reason"), rinfo2.get("summary")),
+                      function=where, engine="cvc")
+    return True
+
+
+def _weights_obligations(sub, name, where, wsum, replay_fixed=None):
     """With the identity proved, F2_1d(q) = SUM_n c_n I2d(q n_n) is an average iff the node weights are
     non-negative and sum to one: both are ground facts about the quadrature tables of the generated source and the
     Jacobian factors of the 1-D function, evaluated over all nodes (float64; 1e-6 allows for the quadrature error of
@@ -115,7 +155,7 @@ def _weights_obligations(sub, name, where, wsum):
             sub.passed(oid, function=where, engine="cvc", backend=backend,
                        sample={"obligation": oid, "value": what, "nodes": winfo["nodes"]})
             continue
-        rep, rinfo = replay_orientation_average(name)
+        rep, rinfo = replay_orientation_average(*replay_fixed) if replay_fixed else replay_orientation_average(name)
         if rep:
             sub.fail(oid, {"node_weights": what, "nodes": winfo["nodes"], "replay": rinfo}, function=where,
                      engine="cvc")
@@ -204,7 +244,18 @@ def shared_quadrature_helpers(tu, one_d, two_d, lib):
     return [f for f in out if f not in inner]
 
 
-def _prove(reg, name):
+def pure_loop_helpers(tu, entry, lib):
+    """Outermost model-local functions with loops below `entry` whose frame is 'reads only its arguments'."""
+    out = [f for f in sorted(_reach(tu, entry) - {entry} - set(lib))
+           if _has_loop(tu, f) and _reads_only_arguments(tu, f, lib)]
+    inner = set()
+    for f in out:
+        inner |= (_reach(tu, f) - {f})
+    return [f for f in out if f not in inner]
+
+
+def _prove(reg, name, restrict=None):
+    """restrict: {parameter id: value} - the claim for the sub-family of parameter sets with those values fixed."""
     me = ModelExec(name)
     tu = me.tu
     two_d = "Iqabc" if "Iqabc" in tu.functions else ("Iqac" if "Iqac" in tu.functions else None)
@@ -242,6 +293,9 @@ def _prove(reg, name):
         E = me.run_2d([me.q * a, me.q * b, me.q * c])
     else:
         E = me.run_2d([me.q * a, me.q * c])          # (qab, qc)
+    if restrict:
+        fix = [(me.pars[k], z3.RealVal(str(v))) for k, v in restrict.items()]
+        S, E = z3.substitute(S, *fix), z3.substitute(E, *fix)
     # candidate unit directions from the trig atoms of the summand
     sin, cos = uf("sin", 1), uf("cos", 1)
     targs = []
@@ -533,6 +587,7 @@ def node_weight_sum(me, Sc, Ec, chain):
     import numpy as np
     import random
     tables = quadrature_tables(me)
+    Sc, Ec = polynf.expand_inverses(Sc), polynf.expand_inverses(Ec)
     # one generic, valid argument vector: the model's default parameter values (slightly detuned) and q = 0.05
     # (the first of: defaults, nine detuned copies that evaluates - validity regions differ between models)
     rng = random.Random(7)
@@ -661,11 +716,14 @@ def _short(e):
 _cache = {}
 
 
-def replay_orientation_average(name):
+def replay_orientation_average(name, fixed=None, hunt=False):
     """1-D kernel vs an independent Gauss-Legendre average of the compiled 2-D
-    kernel over all directions (oriented particle, |q| fixed)."""
-    if name in _cache:
-        return _cache[name]
+    kernel over all directions (oriented particle, |q| fixed).  fixed: parameter values forced in every set.
+    hunt: the identity did not close and a failing input is wanted - the sets are extended by copies with the
+    zero-default parameters switched on and with every shape parameter scaled by 1.6 (non-integer counts)."""
+    ckey = (name, repr(sorted((fixed or {}).items())), hunt)
+    if ckey in _cache:
+        return _cache[ckey]
     import numpy as np
     from sasmodels import core
     from sasmodels.direct_model import call_kernel, call_Fq
@@ -701,7 +759,22 @@ def replay_orientation_average(name):
                 out += w[i] / 2 * v
         return out
     npoints = 0
-    for pars in parameter_sets(info)[:(5 if has_psi else 10)]:
+    sets = parameter_sets(info)[:(5 if has_psi else 10)]
+    if hunt:
+        shape = [p for p in info.parameters.iq_parameters if p.type != "orientation" and p.type != "sld"
+                 and not p.choices and p.length == 1]
+        zero_on = {p.id: (0.1 * p.limits[1] if abs(p.limits[1]) < 1e3 else 10.0) for p in shape if p.default == 0}
+        extra = []
+        for s in sets[:3]:
+            extra.append(dict(s, **zero_on))
+            scaled = {p.id: s[p.id] * 1.6 for p in shape
+                      if p.id in s and p.limits[0] <= s[p.id] * 1.6 <= p.limits[1]}
+            extra.append(dict(s, **scaled))
+            extra.append(dict(s, **dict(scaled, **zero_on)))
+        sets = sets[:4] + extra
+    if fixed:
+        sets = [dict(s, **fixed) for s in sets]
+    for pars in sets:
         pars = {k: v for k, v in pars.items() if k not in ("theta", "phi", "psi")}
         try:
             one = call_kernel(k1, dict(pars, background=0.0))
@@ -723,5 +796,5 @@ def replay_orientation_average(name):
     out = (bad, {"summary": "max |I1d / <I2d> - 1| = %.3g over %d parameter sets, %d converged points"
                             % (worst, nsets, npoints), "worst_case": wc,
                  "call": "call_kernel(%s 1-D) vs Gauss-Legendre average of call_kernel(%s 2-D)" % (name, name)})
-    _cache[name] = out
+    _cache[ckey] = out
     return out
